@@ -146,6 +146,15 @@ CHECKS.update({
         "DESIGN.md §2 C08",
     ),
 })
+CHECKS.update({
+    "C06": (
+        "exploration",
+        "Hypothesis-drawn world sizes, worker limits, workloads and choice tapes on a simulated MPI runtime (threads as ranks, harness-owned matching and send completion); differential against a single-process run + exactly-once / no-unmatched-message invariants",
+        "Exploration over schedules on an executable model of MPI: yaw's MPI branches (selected at import in a dedicated process) run against vlib/fakempi, in which the harness resolves every choice the standard leaves open (runnable rank, wildcard matching among senders, eager vs synchronous send completion, early exit of a bcast root) from a Hypothesis-drawn tape; deadlock is detected structurally. The root's results are compared with a plain single-process run.",
+        "fidelity of the model to MPI-3.1 point-to-point and collective semantics; single node; no MPI implementation is installed, so real-runtime effects beyond the standard's matching rules are out of reach",
+        "DESIGN.md §2 C06",
+    ),
+})
 NOT_YET = {}
 
 props = [json.loads(l) for l in (VERIF / "properties.jsonl").read_text().splitlines() if l.strip()]
@@ -180,6 +189,10 @@ manifest = {
     },
     "engines": [
         {"name": "hypothesis-runner", "path": "vlib/runner.py", "serves_properties": sorted(CHECKS), "kind_free_text": "sharded seeded Hypothesis runs, failure bucketing by root-cause signature, known-finding matching, evidence writer"},
+        {"name": "schedpool", "path": "vlib/schedpool.py", "serves_properties": ["C02", "C03", "C05", "C09", "C16", "C18"], "kind_free_text": "drop-in multiprocessing shim with harness-owned completion order and structural deadlock detection"},
+        {"name": "fakempi", "path": "vlib/fakempi/mpi4py/MPI.py", "serves_properties": ["C06"], "kind_free_text": "simulated MPI runtime: threads as ranks, tape-resolved matching / send completion / scheduling"},
+        {"name": "crash-injector", "path": "vlib/crash.py", "serves_properties": ["C08"], "kind_free_text": "strace-based SIGKILL injection at every file-system syscall on the cache paths"},
+        {"name": "isolate", "path": "vlib/isolate.py", "serves_properties": ["C02", "C05", "C08", "C09"], "kind_free_text": "forked execution with CPU-progress hang detection"},
     ],
     "checks": checks,
     "not_applicable": na,
